@@ -45,7 +45,8 @@ pub struct Probe {
     m: u32,
     f: u32,
     i: usize,
-    /// 0 = before, 1 = after, 2 = alternate
+    /// 0 = before, 1 = after, 2 = alternate, 3 = empty alternate, 4 = function entry, 5 = function exit,
+    /// 6 = block entry, 7 = block exit, 8 = block alternate, 9 = empty block alternate, 10 = semantic after
     mode: u8,
 }
 
@@ -85,8 +86,15 @@ fn build_module(ms: &ModSpec) -> wasm_encoder::Module {
         let mut code = CodeSection::new();
         for len in ms.lens.iter() {
             let mut f = Function::new([]);
-            for _ in 1..*len {
+            if *len >= 10 {
+                // shape with a construct: block nop end end
+                f.instruction(&Instruction::Block(BlockType::Empty));
                 f.instruction(&Instruction::Nop);
+                f.instruction(&Instruction::End);
+            } else {
+                for _ in 1..*len {
+                    f.instruction(&Instruction::Nop);
+                }
             }
             f.instruction(&Instruction::End);
             code.function(&f);
@@ -262,10 +270,20 @@ where
                     match p.mode {
                         0 => it.before(),
                         1 => it.after(),
-                        _ => it.alternate(),
+                        2 => it.alternate(),
+                        3 => it.empty_alternate(),
+                        4 => it.func_entry(),
+                        5 => it.func_exit(),
+                        6 => it.block_entry(),
+                        7 => it.block_exit(),
+                        8 => it.block_alt(),
+                        9 => it.empty_block_alt(),
+                        _ => it.semantic_after(),
                     };
-                    it.i32_const(val);
-                    it.drop();
+                    if p.mode != 3 && p.mode != 9 {
+                        it.i32_const(val);
+                        it.drop();
+                    }
                 });
                 if let Err(pn) = r {
                     return (v, Term::Panic("inject", pn));
@@ -608,7 +626,7 @@ fn run_inject(c: &Case) -> Outcome {
         Ok(d) => d,
         Err(e) => return Outcome::skip(format!("generated input invalid: {}", e)),
     };
-    let modes: Vec<&str> = c.plan.iter().map(|p| ["before", "after", "alternate"][p.mode.min(2) as usize]).collect();
+    let modes: Vec<&str> = c.plan.iter().map(|p| ["before", "after", "alternate", "empty-alternate", "func-entry", "func-exit", "block-entry", "block-exit", "block-alt", "empty-block-alt", "semantic-after"][p.mode.min(10) as usize]).collect();
     let same_loc = c.plan.len() == 2 && (c.plan[0].m, c.plan[0].f, c.plan[0].i) == (c.plan[1].m, c.plan[1].f, c.plan[1].i);
     let same_mod = c.plan.len() == 2 && c.plan[0].m == c.plan[1].m;
     let at_end = c.plan.iter().any(|p| {
@@ -797,6 +815,37 @@ fn plans(model: &[Visit], max: usize) -> Vec<Vec<Probe>> {
     out
 }
 
+/// plans over all injection modes: the basic ones and function entry/exit anywhere, the block modes on
+/// `block` openers
+fn plans_all_modes(model: &[Visit], max: usize) -> Vec<Vec<Probe>> {
+    let pr = |v: &Visit, mode: u8| Probe { m: v.m, f: v.f, i: v.i, mode };
+    let mut singles = vec![];
+    for v in model {
+        let blockish = v.op.starts_with("Block");
+        for mode in 0..=10u8 {
+            if mode >= 6 && !blockish {
+                continue;
+            }
+            if (mode == 4 || mode == 5) && v.i != 0 {
+                continue; // function-level: once per function, issued at its first instruction
+            }
+            if (mode == 2 || mode == 3) && (blockish || v.op == "End") {
+                continue; // an alternate on a structural instruction unbalances the body
+            }
+            singles.push(pr(v, mode));
+        }
+    }
+    let mut out: Vec<Vec<Probe>> = singles.iter().map(|p| vec![p.clone()]).collect();
+    if max >= 2 {
+        for (a, pa) in singles.iter().enumerate() {
+            for pb in singles[a..].iter() {
+                out.push(vec![pa.clone(), pb.clone()]);
+            }
+        }
+    }
+    out
+}
+
 pub fn check(tier: Tier) -> i32 {
     let mut run = Run::new("C26", tier, "exploration");
     let full = family(&[0, 1, 2], &[0, 1, 2, 3], &[1, 2, 3], true);
@@ -805,7 +854,7 @@ pub fn check(tier: Tier) -> i32 {
     let two = tier.pick(&mid, &full);
     let three = tier.pick(&small, &mid);
     run.rule = format!(
-        "visit: components of 1..3 core modules (k function imports x n local functions of body length l, bodies = nop padding + end) x ALL skip maps (every subset of each module's local function ids; variants that also name every imported id); 1 module: k<=2,n<=3,l<=3 with import-id variants ({} configs) x nested-component position; 2 modules: {} configs squared; 3 modules: {} configs cubed; oracle = iterator model (nested loops over wasmparser-decoded code sections), compared on (mod,func,instr,is_end,op) from construction to None and again after reset(). inject: components of 1..2 modules over {{k<=1,n in 1..2,l<=2, all skip subsets}} and 3 modules with k=0, every plan of <= {} probes (i32.const unique; drop) x modes before/after/alternate at every model-visited location (ordered pairs incl. same location); every core module of comp.encode() byte-equal to module.encode() after the same plan through ModuleIterator on a second parse. non-trivial class = (module count, per-module local count and skip pattern) resp. (module count, mode list, same location/module, on final end, skips present)",
+        "visit: components of 1..3 core modules (k function imports x n local functions of body length l, bodies = nop padding + end) x ALL skip maps (every subset of each module's local function ids; variants that also name every imported id); 1 module: k<=2,n<=3,l<=3 with import-id variants ({} configs) x nested-component position; 2 modules: {} configs squared; 3 modules: {} configs cubed; oracle = iterator model (nested loops over wasmparser-decoded code sections), compared on (mod,func,instr,is_end,op) from construction to None and again after reset(). inject: components of 1..2 modules over {{k<=1,n in 1..2,l<=2, all skip subsets}} and 3 modules with k=0, every plan of <= {} probes (i32.const unique; drop) x modes before/after/alternate at every model-visited location (ordered pairs incl. same location), and on bodies with a block every plan of <= that many probes over ALL modes (before, after, alternate, empty alternate, function entry/exit, block entry/exit, block alternate, empty block alternate, semantic after); every core module of comp.encode() byte-equal to module.encode() after the same plan through ModuleIterator on a second parse. non-trivial class = (module count, per-module local count and skip pattern) resp. (module count, mode list, same location/module, on final end, skips present)",
         full.len(),
         two.len(),
         three.len(),
@@ -896,6 +945,32 @@ pub fn check(tier: Tier) -> i32 {
         }
     }
     run.run_cases("inject", &cases, run_inject);
+    // ---- inject, every mode: bodies with a construct, special modes included (differential oracle only)
+    {
+        let fam = family(&[0, 1], &[1, 2], &[10, 2], false);
+        let mut comps: Vec<Vec<ModSpec>> = fam.iter().map(|a| vec![a.clone()]).collect();
+        for a in fam.iter().filter(|a| a.skip.is_empty()) {
+            for b in fam.iter().filter(|b| b.skip.is_empty()) {
+                comps.push(vec![a.clone(), b.clone()]);
+            }
+        }
+        let mut cases = vec![];
+        for mods in comps {
+            let base = Case { mods, nest_at: None, plan: vec![] };
+            let d = match prepare(&base) {
+                Ok(d) => d,
+                Err(e) => {
+                    run.machinery_error(format!("inject generator: {}", e));
+                    continue;
+                }
+            };
+            let model = model_visits(&d.mods, &d.skips);
+            for plan in plans_all_modes(&model, maxp) {
+                cases.push(Case { mods: base.mods.clone(), nest_at: None, plan });
+            }
+        }
+        run.run_cases("inject", &cases, run_inject);
+    }
     run.assumptions.push("decoding by wasmparser 0.235 and the component section framing (id, LEB size) are as specified; modules without local functions or with every function skipped contribute no visit; cases where an iterator does not reach a planned location are excluded from the injection comparison (they are consequences of visit-sequence defects judged in family visit)".into());
     run.finish()
 }
